@@ -188,33 +188,40 @@ Proof.
     destruct (pred_key_parts _ _ Ho) as [_ A]. destruct A; constructor. exact H0.
 Qed.
 
-(* the row of a triple for a list of binders with pairwise different names: every binder gets its extraction *)
-Fixpoint brow (bs : list (str * extractor)) (t : triple) : option row :=
+Lemma xval_equiv : forall opt x t t', tequiv t t' -> opt_rel cequiv (xval opt x t) (xval opt x t').
+Proof.
+  intros opt x t t' H. unfold xval. destruct (xspec_equiv x t t' H); [|constructor; assumption].
+  destruct opt; constructor. reflexivity.
+Qed.
+
+(* the row of a triple for a list of binders with pairwise different names: every binder gets its extraction (NULL inside an
+   OPTIONAL clause when it does not apply) *)
+Fixpoint brow (opt : bool) (bs : list (str * extractor)) (t : triple) : option row :=
   match bs with
   | [] => Some []
   | (k, x) :: rest =>
-      match xspec x t, brow rest t with
+      match xval opt x t, brow opt rest t with
       | Some v, Some r => Some ((k, v) :: r)
       | _, _ => None
       end
   end.
 
-Lemma brow_equiv : forall bs t t', tequiv t t' -> opt_rel row_equiv (brow bs t) (brow bs t').
+Lemma brow_equiv : forall opt bs t t', tequiv t t' -> opt_rel row_equiv (brow opt bs t) (brow opt bs t').
 Proof.
-  intros bs t t' H. induction bs as [|[k x] bs IH]; cbn; [constructor; constructor|].
-  destruct (xspec_equiv x t t' H) as [|v v' Hv]; [constructor|].
+  intros opt bs t t' H. induction bs as [|[k x] bs IH]; cbn; [constructor; constructor|].
+  destruct (xval_equiv opt x t t' H) as [|v v' Hv]; [constructor|].
   destruct IH as [|r r' Hr]; constructor. constructor; [split; auto|exact Hr].
 Qed.
 
-Lemma brow_nonempty : forall bs t r, bs <> [] -> brow bs t = Some r -> r <> [].
+Lemma brow_nonempty : forall opt bs t r, bs <> [] -> brow opt bs t = Some r -> r <> [].
 Proof.
-  intros [|[k x] bs] t r Hne H; [congruence|]. cbn in H.
-  destruct (xspec x t); [|discriminate]. destruct (brow bs t); [|discriminate]. inversion H. discriminate.
+  intros opt [|[k x] bs] t r Hne H; [congruence|]. cbn in H.
+  destruct (xval opt x t); [|discriminate]. destruct (brow opt bs t); [|discriminate]. inversion H. discriminate.
 Qed.
 
-Lemma brow_keys : forall bs t r, brow bs t = Some r -> map fst r = map fst bs.
+Lemma brow_keys : forall opt bs t r, brow opt bs t = Some r -> map fst r = map fst bs.
 Proof.
   induction bs as [|[k x] bs IH]; intros t r H; cbn in H.
   - inversion H. reflexivity.
-  - destruct (xspec x t); [|discriminate]. destruct (brow bs t) eqn:E; [|discriminate]. inversion H; subst. cbn. f_equal. eapply IH; eauto.
+  - destruct (xval opt x t); [|discriminate]. destruct (brow opt bs t) eqn:E; [|discriminate]. inversion H; subst. cbn. f_equal. eapply IH; eauto.
 Qed.
